@@ -368,12 +368,31 @@ def run_async_handoff(rep, facts):
     rep.floor("R5.5", "stream-parser drives inside close()", n_parse, 1)
 
 
+def run_finished_keeps_lookahead(rep, facts):
+    """R5.8: "request parser to request plus leftover ... with a full buffer of look-ahead at the hand-off": a finished request parser may be fed
+    look-ahead until its buffer is full; the conversion then still yields the request and the leftover only if those calls leave the Done
+    state alone (the buffer-full verdict is for an unfinished parser only: instances of R6.2, re-evaluated)."""
+    import check
+    from . import c06
+    rep.rule("R5.8", "look-ahead fed to a finished request parser -- up to a full buffer -- does not turn it into a failed one: final states are reported as done "
+                     "without touching the state, StuckOnInput is stored only while the parser is not done (R6.2)")
+    sr = check.Report("tmp", "quick")
+    c06.run(sr, facts)
+    n = 0
+    for i in sr.instances:
+        if i["rule"] == "R6.2" and i["instance"].startswith("parse/"):
+            n += 1
+            (rep.ok if i["status"] == "ok" else rep.violation)("R5.8", i["instance"], i["detail"], i["loc"])
+    rep.floor("R5.8", "stuck-verdict instances", n, 1)
+
+
 def main(rep, tier):
     f = F.load(("async", "http"))
     rep.configs.append({"features": "async,http", "profile": "debug", "bodies": len(f.bodies)})
     check.guard(rep, "R5", run, f)
     check.guard(rep, "R5.5", run_async_handoff, f)
     check.guard(rep, "R5.6", run_input_accounting, f)
+    check.guard(rep, "R5.8", run_finished_keeps_lookahead, f)
     check.guard(rep, "R5.7", lambda r_, f_: run_skip_arith(r_, f_, "R5.7", "unread records are skipped exactly whatever amount of look-ahead is buffered: no truncating cast or overflow in into_skip / SkipState::drive (R3.11)"), f)
     rep.floor("R5", "rule instances", len([i for i in rep.instances if i["status"] == "ok"]), 7)
     import check as _c
